@@ -102,6 +102,62 @@ func execRoutes(t *testing.T, p *Plan) *Result {
 					w.K.Failures = append(w.K.Failures, "harness: lookup goroutine did not finish")
 					return
 				}
+				// the same table looked up from several goroutines at once (every listen entry of a service has its own
+				// message loop, all share one table): whatever synchronisation the table has is interleaved by the
+				// scheduler; every answer must be the host's answer all the same
+				type cans struct {
+					h string
+					a ans
+				}
+				nthreads := 3
+				conc := make([][]cans, nthreads)
+				finished := 0
+				var shared *PreConfigRoute
+				w.K.Spawn("lookup-setup", true, func() {
+					config, err := loadConfigFromReader(strings.NewReader(yamlText))
+					if err == nil {
+						shared = createPreConfigRoute(config.Proxies[0])
+					}
+				})
+				w.K.RunIdle()
+				if shared == nil {
+					w.K.Failures = append(w.K.Failures, "harness: shared table not built")
+					return
+				}
+				for ti := 0; ti < nthreads; ti++ {
+					ti := ti
+					w.K.Spawn(fmt.Sprintf("lookup%d", ti), true, func() {
+						for rep := 0; rep < 4; rep++ {
+							for k := range routeHostUniverse {
+								h := routeHostUniverse[(k*(ti+1)+ti*5+rep)%len(routeHostUniverse)]
+								proto, host, port, err := shared.FindRoute(h)
+								conc[ti] = append(conc[ti], cans{h, ans{proto, host, port, err != nil}})
+							}
+						}
+						finished++
+					})
+				}
+				w.K.RunIdle()
+				if finished != nthreads {
+					st.v("C18", "lookup-did-not-return", "", "", "%d of %d concurrent lookup goroutines did not finish", nthreads-finished, nthreads)
+					return
+				}
+				for ti := range conc {
+					for _, ca := range conc[ti] {
+						class, allowed := refStaticRoute(st.entries, ca.h)
+						w.Stats["judged:C18"]++
+						ok := class == "none" && ca.a.err
+						for _, e := range allowed {
+							if !ca.a.err && ca.a.proto == e.Proto && ca.a.host == e.Host && ca.a.port == e.Port {
+								ok = true
+							}
+						}
+						if !ok || (len(results[ca.h]) > 0 && ca.a != results[ca.h][0] && len(allowed) <= 1) {
+							st.v("C18", "wrong-route-answer", ca.h, "class="+class+";concurrent", "looked up from %d goroutines at once, host %q (class %s) was answered %s %s:%d err=%v; admissible %v, answered alone %v", nthreads, ca.h, class, ca.a.proto, ca.a.host, ca.a.port, ca.a.err, allowed, results[ca.h][0])
+							break
+						}
+					}
+				}
 				for _, h := range routeHostUniverse {
 					class, allowed := refStaticRoute(st.entries, h)
 					w.Stats["judged:C18"]++
